@@ -3,6 +3,7 @@ module verifharness
 go 1.26
 
 require (
+	github.com/anishathalye/porcupine v1.3.0
 	github.com/eclipse/paho.mqtt.golang v1.3.5
 	github.com/energomonitor/bisquitt v0.0.0
 )
